@@ -65,9 +65,10 @@ class DuplicateIdEvents(R10.Respawn):
         cases = R10.Respawn.generate(self, rng, tier)
         keep, nrand = [], 0
         for c in cases:
-            if c["class"] == "scenario" or (c["class"] == "exhaustive" and len(c["input"]["ops"]) <= (2 if tier == "quick" else 3)):
+            cls = c["class"].replace("_lookalike_ids", "")
+            if cls == "scenario" or (cls == "exhaustive" and len(c["input"]["ops"]) <= (2 if tier == "quick" else 3)):
                 keep.append(c)
-            elif c["class"] == "random" and nrand < (40 if tier == "quick" else 1000):
+            elif cls == "random" and nrand < (40 if tier == "quick" else 1000):
                 nrand += 1
                 keep.append(c)
         return keep
